@@ -862,13 +862,27 @@ def h_future_poll(ex, st, frame, t, nf, args, dty):
         body = coroutine_body(ex, fut.ty, fut)
         if body is None:
             raise Unsupported("coroutine body not found for " + fut.ty[:80])
-        if ex.inline(body) or getattr(ex, "inline_all_coroutines", False) \
-                or re.sub(r"::\{closure#0\}$", "", body.name) in getattr(ex, "auto_inlined", ()):
+        auto = re.sub(r"::\{closure#0\}$", "", body.name) in getattr(ex, "auto_inlined", ())
+        forced = body.name in getattr(st, "force_opaque", ())
+        wanted = ex.inline(body) or getattr(ex, "inline_all_coroutines", False)
+        if wanted or (auto and not forced):
+            snap = None
+            if not wanted and not any(getattr(f, "auto", False) for f in st.frames):
+                # executed only because it is outside the frame assumptions: keep a way back (see Executor.run)
+                snap = st.fork()
+                snap.frames[-1].resume_term = True
+                snap.force_opaque = set(getattr(st, "force_opaque", ())) | {body.name}
             pin = Obj("Pin<&mut %s>" % fut.ty)
             pin.fields[(None, 0)] = where
             ex.push_frame(st, body, [pin, args[1]], t.dest, t.targets.get("return"))
+            if not wanted:
+                st.frames[-1].auto = True
+                st.frames[-1].fallback = snap
             return "pushed"
-        name, fargs = ex.canon(body), [fut]
+        name, fargs = re.sub(r"::\{closure#0\}$", "", ex.canon(body)), [fut]
+        if forced:
+            ex.havoc_reachable(st, [fut])
+            ex.stats["calls_havoc"]["havoc-all:" + name] = ex.stats["calls_havoc"].get("havoc-all:" + name, 0) + 1
     hook = getattr(ex, "await_hook", None)
     if hook is not None:
         r = hook(ex, st, name, fargs, out_ty, dty)
